@@ -10,3 +10,4 @@ import FpVerif.Properties.C03
 #print axioms Fp.C03.count_bar
 #print axioms Fp.C03.four_parts
 #print axioms Fp.C03.non_h2_none
+#print axioms Fp.C03.header_delivered
